@@ -4,6 +4,7 @@ from harness.impl_variants import impl_var_op
 WARM_TWINS = {"quick": 0.02, "thorough": 0.05}      # engine: call-history twins (harness/warm.py)
 ID = "C13"
 LEAN_MODULE = "BioCantor.Props.C13"
+EXTRA_LEAN_MODULES = ["BioCantor.Props.C13Ties"]   # regenerated compound lift loop + tail = Model.liftBlocks + assemble
 DESIGN_REF = "4/C13"
 DRIVER = "drivers/C13.lean"
 SPEC_DRIVER = "drivers/SpecC13.lean"
@@ -15,7 +16,7 @@ RULE = ("one case = one call (alternative sequence / lift_over_location / incorp
         "variants, >= 2 blocks or a chunk parent (vcf: >= 2 records); distinct = distinct operation lines")
 EXHAUSTIVE_NOTE = ""
 TRUSTED = ["Model/Variants.lean is hand-written (the single-interval lift kernel inside it is the GENERATED "
-           "definition); tied to variants.py / feature.py / transcript.py / cds.py / vcf/parser.py by this run's "
+           "definition, and its block loop + assembling tail are proved equal to the GENERATED compound lift, Props/C13Ties); tied to variants.py / feature.py / transcript.py / cds.py / vcf/parser.py by this run's "
            "correspondence",
            "harness/shims.py: marshmallow post_dump, stub `vcf` module (records are duck-typed objects)"]
 ASSUMPTIONS = ["parents carry sequence: whole chromosome or plus-strand chunk containing every variant and block",
